@@ -3,9 +3,13 @@ Proved (Props/C20.lean): memo transparency given key sufficiency; key-sufficienc
 from the source.  Here (runtime clauses no model can exhibit):
   (i)   interleavings of API calls in one process vs each call in a fresh interpreter, bit-for-bit;
   (ii)  the same under different PYTHONHASHSEED values;
-  (iii) C-/Fortran-ordered, transposed, sliced, negatively strided array arguments give equal results;
+  (iii) C-/Fortran-ordered, transposed, sliced, negatively strided array arguments give equal results — the density and the grid of
+        every integrator, sampler and phi manipulation, and BOTH arrays of a spectrum: data x mask layouts (explicit masks in C / Fortran /
+        transposed / strided / reversed / broadcast layout, list, integer array, absent; spectra that are transposed / reversed / sliced
+        views) x corner entries masked or not, for every Spectrum method, statistic, likelihood: same result, same mask and flags afterwards;
   (iv)  arguments are bit-for-bit unchanged and integrators return a fresh array (incl. demes calls on ancient-sample routes).
-K: the Lean memo model vs the real caches (hit/miss sequences); the Lean alias-flow model vs the observed effects of the demes front end."""
+K: the Lean memo model vs the real caches (hit/miss sequences); the Lean alias-flow model vs the observed effects of the demes front end;
+   the Lean strided-array model executing the generated in-place stores of mask_corners / unmask_all vs the memory block of real masks."""
 import os, sys, subprocess, itertools, copy
 import numpy as np
 from . import common, gen
@@ -284,6 +288,387 @@ def l3_layout_and_effects(chk, ctx, rng, tier):
         up = dadi.Inference._project_params_up(pin, fixed); dadi.Inference._project_params_down(list(up), fixed)
         if fixed != f0 or pin != pin0:
             chk.fail('_project_params:mutates', '_project_params_up/down modified their arguments', dict(fixed=f0, pin=pin0))
+
+# ---------------------------------------------------------------- (iii') spectra in every layout of data AND mask
+# Class: a spectrum carries two arrays — data and mask.  The same logical spectrum (same values, same mask, same flags), whatever
+# the memory layout of EITHER array, must give the same results from every method / statistic / likelihood, and the same mask and
+# flags afterwards — also for the methods that write into the mask (mask_corners, unmask_all, S with its temporary re-masking).
+# Layout sources: (a) the constructor given data in C / Fortran / strided / negatively strided / transposed layout and an explicit
+# mask in C / Fortran / transposed / strided / negatively strided / broadcast (read-only, zero strides) layout, as nested list or
+# integer array, or no mask; (b) views of a spectrum: transpose, swapaxes, reversal, slicing out of a larger spectrum.
+# Crossed with: corner entries masked in the input or not, mask_corners=True / False (for views: mask_corners() called on the
+# view), masks with / without interior entries, unfolded / folded spectra.
+def spectrum_canon(x):
+    """layout-free description of a result: values in logical order, mask, flags"""
+    if x is None: return ('none',)
+    if isinstance(x, (tuple, list)): return ('seq',) + tuple(spectrum_canon(e) for e in x)
+    if isinstance(x, np.ma.MaskedArray):
+        m = np.array(np.ma.getmaskarray(x), dtype=bool)
+        d = np.array(np.ma.getdata(x), dtype=float)
+        d = np.where(m, 0.0, d)
+        return ('ma', tuple(x.shape), d, m, repr(getattr(x, 'folded', None)), repr(getattr(x, 'pop_ids', None)))
+    a = np.array(x, dtype=float)
+    return ('nd', tuple(a.shape), a)
+
+def canon_diff(a, b, rtol=1e-12):
+    """None if equal; else (kind, text).  Masks, shapes and flags exactly; values to a few ulps (numpy's reductions follow the memory
+    order, so the last bits of a sum of non-integers may differ between layouts)"""
+    if a[0] != b[0]: return ('type', '%s vs %s' % (a[0], b[0]))
+    if a[0] == 'none': return None
+    if a[0] == 'seq':
+        if len(a) != len(b): return ('length', '%d vs %d' % (len(a) - 1, len(b) - 1))
+        for x, y in zip(a[1:], b[1:]):
+            d = canon_diff(x, y, rtol)
+            if d: return d
+        return None
+    if a[1] != b[1]: return ('shape', '%s vs %s' % (a[1], b[1]))
+    if a[0] == 'ma':
+        if not np.array_equal(a[3], b[3]):
+            return ('mask', 'masked entries %s vs %s' % (np.argwhere(a[3]).tolist()[:6], np.argwhere(b[3]).tolist()[:6]))
+        if a[4:] != b[4:]: return ('flags', '%s vs %s' % (a[4:], b[4:]))
+    x, y = a[2], b[2]
+    scale = float(np.max(np.abs(y[np.isfinite(y)]))) if np.any(np.isfinite(y)) else 0.0
+    if not np.allclose(x, y, rtol=rtol, atol=1e-13 * scale, equal_nan=True):
+        return ('value', '%s vs %s' % (np.ravel(x)[:4], np.ravel(y)[:4]))
+    return None
+
+def array_layouts(a, rng=None):
+    """(name, array with the same logical content) — for data and masks alike"""
+    nd = a.ndim
+    out = [('C', np.ascontiguousarray(a).copy())]
+    if nd >= 2:
+        out.append(('F', np.asfortranarray(a).copy(order='F')))
+        out.append(('transposed', np.ascontiguousarray(np.transpose(a)).T))
+    if nd >= 3:
+        out.append(('swapaxes', np.ascontiguousarray(a.swapaxes(0, nd - 1)).swapaxes(0, nd - 1)))
+    big = np.zeros([2 * s_ + 1 for s_ in a.shape], dtype=a.dtype); sl = tuple(slice(1, 2 * s_ + 1, 2) for s_ in a.shape)
+    big[sl] = a; out.append(('strided', big[sl]))
+    rv = tuple(slice(None, None, -1) for _ in a.shape)
+    out.append(('negative', np.ascontiguousarray(a[rv])[rv]))
+    return out
+
+def mask_layouts(M):
+    out = array_layouts(M)
+    out.append(('list', M.tolist()))
+    out.append(('int', M.astype(int)))
+    # broadcast (zero strides, read-only) when the mask is constant along an axis
+    if not M.any():
+        out.append(('broadcast', np.broadcast_to(np.array(False), M.shape)))
+        out.append(('absent', None))
+    elif M.ndim >= 2 and all(np.array_equal(M[0], M[i]) for i in range(M.shape[0])):
+        out.append(('broadcast', np.broadcast_to(M[0].copy(), M.shape)))
+    return out
+
+def spectrum_variants(S, vals, M, mc, folded, pop_ids, quick, rng):
+    """the reference (everything C-ordered and private) and the same logical spectrum built along other routes"""
+    kw = dict(data_folded=True) if folded else {}
+    def ctor(d, m):
+        def build():
+            d_ = d.copy(order='K') if isinstance(d, np.ndarray) and d.flags.owndata else d
+            args = dict(kw, mask_corners=mc, pop_ids=(list(pop_ids) if pop_ids else None))
+            if m is not None: args['mask'] = m.copy(order='K') if isinstance(m, np.ndarray) and m.flags.owndata and m.flags.writeable else m
+            return S(d_, **args)
+        return build
+    ref = ctor(np.ascontiguousarray(vals).copy(), np.ascontiguousarray(M).copy())
+    dls = array_layouts(vals); mls = mask_layouts(M)
+    pairs = [(a, b) for a in range(len(dls)) for b in range(len(mls))]
+    if quick:
+        # every mask layout with C data, every data layout with C mask, every mask layout with one random non-C data layout
+        keep = {(0, b) for b in range(len(mls))} | {(a, 0) for a in range(len(dls))} | {(1 + int(rng.integers(len(dls) - 1)), b) for b in range(1, len(mls))}
+        pairs = [p_ for p_ in pairs if p_ in keep]
+    out = []
+    for a, b in pairs:
+        if a == 0 and b == 0: continue
+        out.append(('ctor:data=%s:mask=%s' % (dls[a][0], mls[b][0]), ctor(dls[a][1], mls[b][1])))
+    # views of a spectrum (no pop_ids: a transposition does not permute labels)
+    if not pop_ids:
+        nd = vals.ndim
+        def view(perm_in, perm_out):
+            def build():
+                base = S(np.ascontiguousarray(perm_in(vals)).copy(), mask=np.ascontiguousarray(perm_in(M)).copy(), mask_corners=False, **kw)
+                v = perm_out(base)
+                if mc: v.mask_corners()
+                return v
+            return build
+        rv = tuple(slice(None, None, -1) for _ in vals.shape)
+        out.append(('view:reversed', view(lambda x: x[rv], lambda f: f[rv])))
+        if nd >= 2:
+            out.append(('view:transpose', view(lambda x: np.transpose(x), lambda f: f.transpose())))
+            out.append(('view:T', view(lambda x: x.T, lambda f: f.T)))
+        if nd >= 3:
+            out.append(('view:swapaxes', view(lambda x: x.swapaxes(0, 1), lambda f: f.swapaxes(0, 1))))
+        def sliced():
+            sl = tuple(slice(1, 2 * s_ + 1, 2) for s_ in vals.shape)
+            big = np.ones([2 * s_ + 1 for s_ in vals.shape]); bm = np.zeros(big.shape, dtype=bool)
+            big[sl] = vals; bm[sl] = M
+            v = S(big, mask=bm, mask_corners=False, **kw)[sl]
+            if mc: v.mask_corners()
+            return v
+        out.append(('view:sliced', sliced))
+    return ref, out
+
+def spectrum_methods(dadi, rng, shape, folded, other_model, other_data, heavy, godambe=False):
+    """(name, callable(fs) -> result); every callable is deterministic given the logical content of fs"""
+    import pickle, tempfile
+    nd = len(shape); Inf = dadi.Inference
+    def quiet(g):
+        # (ll_per_bin prints when model and data masks differ; stdout is the worker's event channel)
+        def h(fs):
+            import io, contextlib
+            with contextlib.redirect_stdout(io.StringIO()):
+                return g(fs)
+        return h
+    ms = [('construct', lambda fs: fs), ('mask_corners', lambda fs: fs.mask_corners()), ('unmask_all', lambda fs: fs.unmask_all()),
+          ('S', lambda fs: fs.S()), ('sum', lambda fs: fs.sum()), ('log', lambda fs: fs.log()),
+          ('mul', lambda fs: fs * 2.0), ('add', lambda fs: fs + other_model()), ('imul', lambda fs: fs.__imul__(2.0)),
+          ('copy', lambda fs: fs.copy()), ('deepcopy', lambda fs: copy.deepcopy(fs)), ('pickle', lambda fs: pickle.loads(pickle.dumps(fs)))]
+    ms += [('Numerics.apply_anc_state_misid', lambda fs: dadi.Numerics.apply_anc_state_misid(fs, 0.125)), ('Numerics.reverse_array', lambda fs: dadi.Numerics.reverse_array(fs)),
+           ('Numerics.intersect_masks', lambda fs: list(dadi.Numerics.intersect_masks(fs.mask, other_data().mask)))]
+    seed = int(rng.integers(1 << 30))
+    def seeded(f):
+        def g(fs):
+            np.random.seed(seed); return f(fs)
+        return g
+    ms += [('sample', seeded(lambda fs: fs.sample())), ('fixed_size_sample', seeded(lambda fs: fs.fixed_size_sample(50))),
+           ('fixed_size_sample:only_nonmasked', seeded(lambda fs: fs.fixed_size_sample(50, only_nonmasked=True)))]
+    def roundtrip(fs):
+        fd, path = tempfile.mkstemp(suffix='.fs', prefix='c20_'); os.close(fd)
+        try:
+            fs.to_file(path); return dadi.Spectrum.from_file(path, mask_corners=False)
+        finally:
+            os.unlink(path)
+    ms.append(('to_file', roundtrip))
+    if not folded:
+        ms += [('fold', lambda fs: fs.fold()), ('fold.unfold', lambda fs: fs.fold().unfold())]
+        to = [int(rng.integers(2, s_ - 1)) if s_ > 3 else s_ - 1 for s_ in shape]
+        ms.append(('project', lambda fs: fs.project(to)))
+    else:
+        ms.append(('unfold', lambda fs: fs.unfold()))
+    if nd == 1 and godambe:
+        # an uncertainty call with the spectrum as its data (thorough tier): the model is a fixed one-population model
+        def model(params, ns, pts):
+            xx = dadi.Numerics.default_grid(pts)
+            phi = dadi.Integration.one_pop(dadi.PhiManip.phi_1D(xx), xx, params[1], params[0])
+            return dadi.Spectrum.from_phi(phi, ns, (xx,))
+        ex = dadi.Numerics.make_extrap_func(model)
+        ms.append(('Godambe.FIM_uncert:data', quiet(lambda fs: dadi.Godambe.FIM_uncert(ex, [12, 14, 16], [1.5, 0.3], fs, multinom=True, eps=0.01, return_FIM=True))))
+    if nd == 1:
+        ms += [('pi', lambda fs: fs.pi()), ('Watterson_theta', lambda fs: fs.Watterson_theta()), ('theta_L', lambda fs: fs.theta_L()),
+               ('Zengs_E', lambda fs: fs.Zengs_E()), ('Tajima_D', lambda fs: fs.Tajima_D())]
+    else:
+        ms.append(('Fst', lambda fs: fs.Fst()))
+        for ax in range(nd):
+            for mcorn in (True, False):
+                if folded and heavy is False and mcorn is False: continue
+                ms.append(('marginalize:%d:mask_corners=%s' % (ax, mcorn), lambda fs, ax=ax, mcorn=mcorn: fs.marginalize([ax], mask_corners=mcorn)))
+        keep = sorted(int(x) + 1 for x in rng.choice(np.arange(nd), nd - 1, replace=False))
+        ms.append(('filter_pops', lambda fs: fs.filter_pops(keep)))
+        if not folded:
+            comb = sorted(int(x) + 1 for x in rng.choice(np.arange(nd), 2, replace=False))
+            ms.append(('combine_pops', lambda fs: fs.combine_pops(comb)))
+            order = [int(x) + 1 for x in rng.permutation(nd)]
+            ms.append(('reorder_pops', lambda fs: fs.reorder_pops(order)))
+            if heavy: ms.append(('scramble_pop_ids', seeded(lambda fs: fs.scramble_pop_ids())))
+    for fn in ('ll', 'll_multinom', 'll_per_bin', 'll_multinom_per_bin', 'optimal_sfs_scaling', 'optimally_scaled_sfs', 'minus_ll', 'minus_ll_multinom',
+               'linear_Poisson_residual', 'Anscombe_Poisson_residual'):
+        f = getattr(Inf, fn)
+        ms.append(('Inference.%s:model' % fn, quiet(lambda fs, f=f: f(fs, other_data()))))
+        ms.append(('Inference.%s:data' % fn, quiet(lambda fs, f=f: f(other_model(), fs))))
+        if fn.endswith('residual'):
+            ms.append(('Inference.%s:data:mask=0.5' % fn, quiet(lambda fs, f=f: f(other_model(), fs, mask=0.5))))
+    return ms
+
+def l3_spectrum_layouts(chk, ctx, rng, tier):
+    dadi = ctx['dadi']; S = dadi.Spectrum
+    quick = (tier == 'quick')
+    pre = lambda short: short if short.startswith(('Inference.', 'Numerics.', 'Godambe.')) else 'Spectrum.' + short
+    tier_quick = quick
+    for rep in range(1 if quick else 2):
+        # thorough tier: the first round crosses every data layout with every mask layout and runs every method on every variant;
+        # the second round (other shapes, values, masks) samples the layout pairs and the methods the way the quick tier does
+        quick = tier_quick or rep >= 1
+        for nd in (1, 2, 3):
+            if nd == 1: shape = (int(rng.integers(7, 11)),)
+            elif nd == 2: shape = (int(rng.integers(5, 8)), int(rng.integers(5, 8)))
+            else: shape = (int(rng.integers(3, 5)), int(rng.integers(4, 6)), int(rng.integers(3, 5)))
+            if nd == 2 and rep % 2 == 0 and shape[0] == shape[1]: shape = (shape[0], shape[1] + 1)      # a non-square one always
+            vals = rng.integers(1, 40, shape) / 4.0                      # dyadic: sums are exact in any order
+            dvals = rng.poisson(3, shape).astype(float)
+            other_model = lambda: S(rng_free_vals[0].copy())
+            rng_free_vals = [rng.integers(1, 40, shape) / 8.0]
+            other_data = lambda: S(dvals.copy())
+            for folded in ((False, True) if nd <= 2 else (False,)):
+                for pattern in ('none', 'interior'):
+                    M0 = np.zeros(shape, dtype=bool)
+                    if pattern == 'interior':
+                        for _ in range(2): M0[tuple(int(rng.integers(0, s_)) for s_ in shape)] = True
+                    base_vals = vals
+                    if folded:
+                        f0 = S(vals.copy()).fold()
+                        base_vals = np.array(np.ma.getdata(f0)); M0 = M0 | np.array(np.ma.getmaskarray(f0))
+                    for corners in (False, True):
+                        M = M0.copy(); M.flat[0] = M.flat[-1] = corners
+                        for mc in (False, True):
+                            if quick and corners and mc and pattern == 'interior': continue
+                            for with_ids in ((False, True) if (not quick or (pattern == 'none' and not folded)) else (False,)):
+                                pop_ids = ['q%d' % i for i in range(nd)] if with_ids else None
+                                if with_ids and (corners or not mc) and quick: continue
+                                ref_build, variants = spectrum_variants(S, base_vals, M, mc, folded, pop_ids, quick, rng)
+                                heavy = (not quick) or (pattern == 'none' and not corners and not folded)
+                                methods = spectrum_methods(dadi, rng, shape, folded, other_model, other_data, heavy, godambe=(not quick and pattern == 'none' and not corners and not folded))
+                                if quick and not heavy:
+                                    # quick tier: everything that touches the mask or depends on the corners always; a sample of the others
+                                    must = ('construct', 'mask_corners', 'unmask_all', 'S', 'sum', 'Tajima_D', 'Watterson_theta', 'Inference.ll:data', 'Inference.ll_multinom:model')
+                                    rest = [m_ for m_ in methods if m_[0] not in must]
+                                    pick = set(int(i) for i in rng.choice(len(rest), min(6, len(rest)), replace=False))
+                                    methods = [m_ for m_ in methods if m_[0] in must] + [m_ for i, m_ in enumerate(rest) if i in pick]
+                                desc = dict(shape=list(shape), folded=folded, mask_pattern=pattern, corners_masked_in_input=corners, mask_corners=mc, pop_ids=pop_ids,
+                                            values=base_vals.tolist(), mask=M.astype(int).tolist())
+                                # the reference results
+                                refs = {}
+                                assert methods[0][0] == 'construct'
+                                for mname, f in methods:
+                                    try:
+                                        fs = ref_build()
+                                        r = f(fs)
+                                        refs[mname] = ('ok', spectrum_canon(r), spectrum_canon(fs))
+                                    except Exception as e:
+                                        refs[mname] = ('exc', type(e).__name__, None)
+                                # what the two documented in-place methods must do to the logical mask (from their docstrings), on the reference;
+                                # every variant is then compared with the reference
+                                start = M.copy()
+                                if mc: start.flat[0] = start.flat[-1] = True
+                                for mname, want_mask in (('construct', start), ('mask_corners', None), ('unmask_all', np.zeros(shape, dtype=bool))):
+                                    if want_mask is None:
+                                        want_mask = start.copy(); want_mask.flat[0] = want_mask.flat[-1] = True
+                                    chk.l3(('spectrum-mask-semantics', mname, nd, corners, mc, folded))
+                                    if refs[mname][0] != 'ok' or not np.array_equal(refs[mname][2][3], want_mask):
+                                        chk.fail('Spectrum.%s:mask' % mname, 'after %s (C-ordered spectrum, corner entries %s in the input, mask_corners=%s) the mask is %s, expected %s' % (
+                                            mname, 'masked' if corners else 'not masked', mc, 'unavailable (%s)' % refs[mname][1] if refs[mname][0] != 'ok' else np.argwhere(refs[mname][2][3]).tolist()[:8],
+                                            np.argwhere(want_mask).tolist()[:8]), dict(desc, method=mname, layout='C'))
+                                for vname, build in variants:
+                                    # the variant must BE the reference spectrum (values, mask, flags) before any method is compared on it
+                                    same = True
+                                    for mname, f in methods:
+                                        if not same: break
+                                        key = 'Spectrum.%s:%s:corners=%s:mask_corners=%s:%s%s' % (mname, vname, corners, mc, pattern, ':folded' if folded else '')
+                                        inp = dict(desc, method=mname, layout=vname)
+                                        if not chk.begin(key, inp): continue
+                                        chk.l3(('spectrum-layout', mname.split(':')[0], vname, nd, corners, mc, folded))
+                                        try:
+                                            fs = build()
+                                        except Exception as e:
+                                            if mname == 'construct':
+                                                ok = refs[mname][0] == 'exc' and refs[mname][1] == type(e).__name__
+                                                if not ok and vname.endswith('mask=broadcast') and isinstance(e, ValueError) and 'read-only' in str(e):
+                                                    chk.l3(('spectrum-layout', 'read-only-mask-refused'))     # an explicit refusal is not a silent layout dependence
+                                                elif not ok:
+                                                    chk.fail('Spectrum.construct:layout:raises:%s' % type(e).__name__, 'constructing the spectrum %s raises %r; with C-ordered private copies of the same values and mask it does not' % (vname, e), inp)
+                                            continue
+                                        before = spectrum_canon(fs)
+                                        try:
+                                            r = f(fs)
+                                            got = ('ok', spectrum_canon(r), spectrum_canon(fs))
+                                        except Exception as e:
+                                            got = ('exc', type(e).__name__, None)
+                                        want = refs[mname]
+                                        short = mname.split(':')[0]
+                                        if mname == 'construct' and got[0] == 'ok' and want[0] == 'ok' and canon_diff(got[1], want[1]):
+                                            same = False
+                                            if vname.startswith('view:') and mc: short = 'mask_corners'      # the view was built correctly; mask_corners() on it was the last step
+                                        if got[0] != want[0] or (got[0] == 'exc' and got[1] != want[1]):
+                                            chk.fail('%s:layout:raises' % pre(short), '%s on the spectrum %s %s, on the C-ordered spectrum with the same values and mask it %s' % (
+                                                mname, vname, 'raises ' + got[1] if got[0] == 'exc' else 'returns', 'raises ' + want[1] if want[0] == 'exc' else 'returns'), inp)
+                                            continue
+                                        if got[0] == 'exc': continue
+                                        d = canon_diff(got[1], want[1])
+                                        if d:
+                                            chk.fail('%s:layout%s' % (pre(short), ':mask' if d[0] == 'mask' else ''),
+                                                     '%s depends on the memory layout of the spectrum (%s; corner entries %s in the input, mask_corners=%s): %s differs from the result for C-ordered data and mask: %s' % (
+                                                         mname, vname, 'masked' if corners else 'not masked', mc, d[0], d[1]), inp)
+                                        d = canon_diff(got[2], want[2]) if same else None
+                                        if d:
+                                            chk.fail('%s:layout:after%s' % (pre(short), ':mask' if d[0] == 'mask' else ''),
+                                                     'after %s the spectrum (%s; corner entries %s in the input, mask_corners=%s) differs from the C-ordered spectrum after the same call: %s %s' % (
+                                                         mname, vname, 'masked' if corners else 'not masked', mc, d[0], d[1]), inp)
+                                        if mname not in ('mask_corners', 'unmask_all', 'imul') and canon_diff(got[2], before):
+                                            chk.fail('%s:mutates' % pre(short), '%s modified the spectrum it was called on (%s)' % (mname, vname), inp)
+
+# ---------------------------------------------------------------- (iii'') densities and grids in every layout: the phi manipulations and array helpers
+def l3_phi_layouts(chk, ctx, rng, tier):
+    """PhiManip (constructors, splits, admixture, pulses, remove / filter / reorder) and the array helpers of Numerics with the density in
+    C / Fortran / strided / negatively strided / transposed layout and the grid contiguous / strided: values equal to the call on
+    C-ordered private copies; for the functions documented as altering phi in place the argument afterwards equals the result; for
+    the others the argument is unchanged."""
+    dadi = ctx['dadi']; P = dadi.PhiManip; N = dadi.Numerics
+    for rep in range(1 if tier == 'quick' else 3):
+        cases = []
+        for d in (1, 2, 3, 4):
+            pts = {1: 12, 2: 8, 3: 6, 4: 5}[d]
+            xx = N.default_grid(pts); phi = gen.density(rng, [pts] * d)
+            f1, f2, f3 = [float(x) for x in rng.uniform(0.05, 0.3, 3)]
+            g = lambda k: (lambda X: [X] * k)
+            if d == 1:
+                cases += [(d, 'phi_1D_to_2D', phi, xx, lambda ph, X: P.phi_1D_to_2D(X, ph), False)]
+                cases += [(d, 'Numerics.trapz', phi, xx, lambda ph, X: N.trapz(ph, X), False), (d, 'Numerics.reverse_array', phi, xx, lambda ph, X: N.reverse_array(ph), False),
+                          (d, 'Numerics.end_point_first_derivs', phi, xx, lambda ph, X: np.array(N.end_point_first_derivs(X)), False)]
+                for nm in ('phi_1D', 'phi_1D_genic', 'phi_1D_snm', 'phi_1D_X'):
+                    if hasattr(P, nm):
+                        kw = {} if nm == 'phi_1D_snm' else dict(gamma=float(rng.uniform(-2, 2)))
+                        cases.append((d, nm, phi, xx, lambda ph, X, nm=nm, kw=kw: getattr(P, nm)(X, nu=1.5, **kw), False))
+            if d == 2:
+                cases += [(d, 'phi_2D_to_3D_split_1', phi, xx, lambda ph, X: P.phi_2D_to_3D_split_1(X, ph), False),
+                          (d, 'phi_2D_to_3D_split_2', phi, xx, lambda ph, X: P.phi_2D_to_3D_split_2(X, ph), False),
+                          (d, 'phi_2D_to_3D_admix', phi, xx, lambda ph, X: P.phi_2D_to_3D_admix(ph, f1, X, X, X), False),
+                          (d, 'phi_2D_admix_1_into_2', phi, xx, lambda ph, X: P.phi_2D_admix_1_into_2(ph, f1, X, X), True),
+                          (d, 'phi_2D_admix_2_into_1', phi, xx, lambda ph, X: P.phi_2D_admix_2_into_1(ph, f1, X, X), True)]
+            if d == 3:
+                cases += [(d, 'phi_3D_to_4D', phi, xx, lambda ph, X: P.phi_3D_to_4D(ph, f1, f2, X, X, X, X), False)]
+                for nm in ('phi_3D_admix_1_and_2_into_3', 'phi_3D_admix_1_and_3_into_2', 'phi_3D_admix_2_and_3_into_1'):
+                    cases.append((d, nm, phi, xx, lambda ph, X, nm=nm: getattr(P, nm)(ph, f1, f2, X, X, X), True))
+            if d == 4:
+                cases += [(d, 'phi_4D_to_5D', phi, xx, lambda ph, X: P.phi_4D_to_5D(ph, f1, f2, f3, X, X, X, X, X), False)]
+                for k in (1, 2, 3, 4):
+                    cases.append((d, 'phi_4D_admix_into_%d' % k, phi, xx, lambda ph, X, k=k: getattr(P, 'phi_4D_admix_into_%d' % k)(ph, f1, f2, f3, X, X, X, X), True))
+            if d >= 2:
+                for k in range(1, d + 1):
+                    cases.append((d, 'remove_pop', phi, xx, lambda ph, X, k=k: P.remove_pop(ph, X, k), False))
+                order = [int(x) + 1 for x in rng.permutation(d)]
+                cases.append((d, 'reorder_pops', phi, xx, lambda ph, X, order=order: P.reorder_pops(ph, order), False))
+                keep = sorted(int(x) + 1 for x in rng.choice(np.arange(d), d - 1, replace=False))
+                if hasattr(P, 'filter_pops'): cases.append((d, 'filter_pops', phi, xx, lambda ph, X, keep=keep: P.filter_pops(ph, X, keep), False))
+                ax = int(rng.integers(d))
+                cases.append((d, 'Numerics.trapz', phi, xx, lambda ph, X, ax=ax: N.trapz(ph, X, axis=ax), False))
+                cases.append((d, 'Numerics.reverse_array', phi, xx, lambda ph, X: N.reverse_array(ph), False))
+        for d, name, phi, xx, f, inplace in cases:
+            full = name if name.startswith('Numerics.') else 'PhiManip.' + name
+            try:
+                ref = np.array(f(np.ascontiguousarray(phi).copy(), xx.copy()), dtype=float)
+            except Exception as e:
+                chk.l3((full, 'reference-raises', type(e).__name__)); continue
+            for lname, _ in layouts(phi):
+                for xname in ('C', 'strided'):
+                    arr = dict(layouts(phi.copy()))[lname]; xarr = dict(layouts(xx.copy()))[xname]      # fresh arrays per call (some functions work in place)
+                    key = '%s:%dD:phi=%s:xx=%s' % (full, d, lname, xname)
+                    inp = dict(function=full, d=d, phi_layout=lname, xx_layout=xname, pts=len(xx))
+                    if not chk.begin(key, inp): continue
+                    chk.l3((full, d, lname, xname))
+                    b0 = bytes_of(arr); x0 = bytes_of(xarr)
+                    try:
+                        res = f(arr, xarr)
+                    except Exception as e:
+                        chk.fail('%s:layout:raises:%s' % (full, type(e).__name__), '%s raises %r for phi layout %s / grid layout %s but not for contiguous arrays' % (full, e, lname, xname), inp); continue
+                    if bytes_of(xarr) != x0:
+                        chk.fail('%s:mutates:xx' % full, '%s modified its grid argument' % full, inp)
+                    if not inplace and bytes_of(arr) != b0:
+                        chk.fail('%s:mutates:phi' % full, '%s modified its density argument (layout %s)' % (full, lname), inp)
+                    r = np.array(res, dtype=float)
+                    sc = float(np.max(np.abs(ref))) if ref.size else 0.0
+                    if r.shape != ref.shape or not np.allclose(r, ref, rtol=1e-10, atol=1e-13 * sc, equal_nan=True):
+                        chk.fail('%s:layout' % full, '%s gives a different result for phi layout %s / grid layout %s than for contiguous arrays (max diff %.3g)' % (
+                            full, lname, xname, float(np.nanmax(np.abs(r - ref))) if r.shape == ref.shape else float('nan')), inp)
+                    if inplace and not np.allclose(np.asarray(arr, dtype=float), ref, rtol=1e-10, atol=1e-13 * sc, equal_nan=True):
+                        chk.fail('%s:layout:inplace' % full, '%s is documented to alter phi in place: for phi layout %s the argument afterwards differs from the result for contiguous arrays' % (full, lname), inp)
 
 # ---------------------------------------------------------------- (iv') every argument, every container type, every option
 # Class: a function of one of the families named by the property (likelihoods, uncertainty calls, optimiser helpers, spectrum
@@ -1093,6 +1478,67 @@ def k_flow_effects(chk, ctx, rng):
             chk.k_bad('c20.flow:' + name, inp, sorted(observed), sorted(predicted),
                       'parameters observed to be modified on the real function vs parameters the alias-flow model says may be modified' + ('' if note is None else ' (%s)' % note))
 
+def k_mask_writes(chk, ctx, rng, tier):
+    """K: the methods that write into the mask in place (`mask_corners`, `unmask_all`) on masks of every layout against the Lean
+    strided-array model (`Driver.Memo.applyWrites` over the rows `Gen.Effects.maskWrites` regenerated from the source): the whole
+    memory block that holds the mask — the bytes of the mask AND the bytes between / around them for views — before the call goes
+    to the model together with the position of every logical element; the block after the real call must be the model's."""
+    dadi = ctx['dadi']; drv = ctx.get('driver'); S = dadi.Spectrum
+    if drv is None or not drv.ok():
+        chk.k_skipped += 1; return
+    for method in ('mask_corners', 'unmask_all'):
+        for nd in (1, 2, 3):
+            for rep in range(1 if tier == 'quick' else 3):
+                shape = tuple(int(x) for x in rng.integers(2, 5, nd)) if nd > 1 else (int(rng.integers(2, 8)),)
+                vals = rng.integers(1, 9, shape).astype(float)
+                M = rng.random(shape) < 0.3
+                ref, variants = spectrum_variants(S, vals, M, False, False, None, False, rng)
+                for vname, build in [('ctor:data=C:mask=C', ref)] + variants:
+                    try:
+                        fs = build()
+                    except Exception:
+                        chk.k_skipped += 1; continue
+                    m = fs.mask
+                    own = m
+                    while isinstance(own.base, np.ndarray): own = own.base
+                    span = sum((s_ - 1) * abs(st) for s_, st in zip(own.shape, own.strides)) + 1
+                    if not own.flags.owndata or own.itemsize != 1 or span != own.size or any(st < 0 for st in own.strides):
+                        chk.k_skipped += 1; continue
+                    block = np.lib.stride_tricks.as_strided(own, shape=(own.size,), strides=(1,))
+                    off = m.__array_interface__['data'][0] - own.__array_interface__['data'][0]
+                    idx = np.indices(m.shape)
+                    pos = (off + sum(idx[i] * m.strides[i] for i in range(m.ndim))).ravel()
+                    if pos.min() < 0 or pos.max() >= block.size or not np.array_equal(block[pos].astype(bool), np.ravel(np.array(m))):
+                        chk.k_skipped += 1; continue
+                    before = ''.join('1' if b else '0' for b in block.astype(bool))
+                    inp = dict(method=method, layout=vname, shape=list(shape), positions=[int(p_) for p_ in pos], block_before=before)
+                    try:
+                        getattr(fs, method)()
+                        impl = 'ok ' + ''.join('1' if b else '0' for b in block.astype(bool))
+                    except IndexError:
+                        impl = 'err index'
+                    model = drv.ask('c20.maskwrite Spectrum.%s %s %s' % (method, ','.join(str(int(p_)) for p_ in pos), before))
+                    if impl == model: chk.k_ok('c20.maskwrite:' + method)
+                    else: chk.k_bad('c20.maskwrite:' + method, inp, impl, model, 'memory block of the mask after Spectrum.%s() vs the strided-array model executing the generated stores' % method)
+                    if method != 'mask_corners': continue
+                    # the primitives of the array model against numpy itself, on the same mask: one store through each kind of handle
+                    # (`ravel` writes through only for a C-contiguous array, `flatten` never, `flat` / direct always)
+                    for handle in ('flat', 'ravel', 'flatten', 'direct'):
+                        ix = 'all' if handle == 'direct' or rng.random() < 0.2 else str(int(rng.integers(-m.size - 1, m.size + 1)))
+                        v = bool(rng.integers(2))
+                        before = ''.join('1' if b else '0' for b in block.astype(bool))
+                        try:
+                            tgt = m if handle == 'direct' else m.flat if handle == 'flat' else m.ravel() if handle == 'ravel' else m.flatten()
+                            if ix == 'all': tgt[...] = v
+                            else: tgt[int(ix)] = v
+                            impl = 'ok ' + ''.join('1' if b else '0' for b in block.astype(bool))
+                        except IndexError:
+                            impl = 'err index'
+                        model = drv.ask('c20.arrwrite %s %s %d %s %s' % (handle, ix, int(v), ','.join(str(int(p_)) for p_ in pos), before))
+                        if impl == model: chk.k_ok('c20.arrwrite:' + handle)
+                        else: chk.k_bad('c20.arrwrite:' + handle, dict(inp, handle=handle, index=ix, value=v, block_before=before, c_contiguous=bool(m.flags.c_contiguous)), impl, model,
+                                        'numpy store through %s vs the strided-array model' % handle)
+
 class EventChk:
     """Check stub used inside the crash-isolated child: emits one JSON event per line.  `begin` announces the call about to be
     made (so that a hard crash - heap corruption in the C kernels - is attributed to it) and skips cases already done."""
@@ -1119,6 +1565,8 @@ def worker_main():
     assert os.path.realpath(dadi.__file__).startswith(os.path.realpath(path))
     chk = EventChk(skip)
     l3_layout_and_effects(chk, dict(dadi=dadi), common.Rng(seed, 'C20-layout'), tier)
+    l3_spectrum_layouts(chk, dict(dadi=dadi), common.Rng(seed, 'C20-fs-layout'), tier)
+    l3_phi_layouts(chk, dict(dadi=dadi), common.Rng(seed, 'C20-phi-layout'), tier)
     l3_argument_effects(chk, dict(dadi=dadi), common.Rng(seed, 'C20-args'), tier)
     l3_demes_effects(chk, dict(dadi=dadi), common.Rng(seed, 'C20-demes'), tier)
     chk.emit(ev='done')
@@ -1158,7 +1606,15 @@ def run(chk, ctx):
                 'paths project / from_phi / from_phi_inbreeding, and FIM/GIM/get_godambe/LRT/Wald/score with multinom False and True: function object, one parameter, sample '
                 'size, one grid point, whole grid, grid length, step, data); every memo entry recomputed from its key afterwards; '
                 '(ii) same sequence under several PYTHONHASHSEED values; (iii) C/F/strided/negatively-strided/transposed layouts of phi and of the grid for every integrator '
-                '(constant and time-dependent drivers, zero and positive duration), from_phi and Spectrum methods; (iv) byte comparison of every array/list argument before/after '
+                '(constant and time-dependent drivers, zero and positive duration), from_phi and Spectrum methods; (iii\') the same logical spectrum in every layout of its data AND of its mask '
+                '(constructor: data C/F/strided/negative/transposed/swapaxes x explicit mask C/F/transposed/swapaxes/strided/negative/broadcast/list/int/absent; views: transpose, T, swapaxes, '
+                'reversed, sliced out of a larger spectrum) x corner entries masked in the input or not x mask_corners True/False x masks with/without interior entries x unfolded/folded x '
+                'pop_ids, dimensions 1-3 (non-square shapes): construct, mask_corners, unmask_all, S, sum, log, arithmetic, in-place arithmetic, copy/deepcopy/pickle/to_file, sample, '
+                'fixed_size_sample, fold, unfold, project, marginalize (each axis, mask_corners T/F), filter_pops, combine_pops, reorder_pops, scramble_pop_ids, Fst, pi, Watterson_theta, theta_L, '
+                'Zengs_E, Tajima_D, apply_anc_state_misid, reverse_array, intersect_masks, the ten likelihood/residual functions with the spectrum as model and as data, FIM_uncert with it as data '
+                '(thorough): result (values to 1e-12 — dyadic data, so sums are exact —, mask, folded, pop_ids exactly) and the spectrum AFTER the call equal to those of the C-ordered private '
+                'spectrum; documented mask semantics of mask_corners / unmask_all / constructor on the reference; (iii\'\') PhiManip constructors / splits / admixture / pulses / remove / filter / '
+                'reorder and Numerics.trapz / reverse_array / end_point_first_derivs with phi in C/F/strided/negative/transposed layout and the grid contiguous / strided; (iv) byte comparison of every array/list argument before/after '
                 'and np.shares_memory(result, argument); (iv\') for the uncertainty calls (all ten functions of Godambe, multinom x log x option flags x generic / integral / boundary / '
                 'tiny parameters), likelihoods and residuals (plain, folded, masked, unmasked corners, integer data, strided), objective functions, optimisers (2 iterations), '
                 'perturb_params / _project_params and list-taking Spectrum methods: every sequence argument in turn as list, tuple, float64 array, strided float64 view, list of numpy '
@@ -1168,7 +1624,8 @@ def run(chk, ctx):
                 'numpy-scalar list, graph included in the snapshot, second call with the same objects (spectrum, mask, pop_ids); DemesUtil.slice / swipe; Demes.output of a recorded program '
                 '(deme_ids lists, deme_mapping dicts, units) and output(second) alone vs after output(first) for all ordered pairs of five argument sets. '
                 'K: real memo tables vs the Lean table model (Driver/Memo.lean) on histories base / one-input-changed / base; parameters observed to be modified on ten functions of the demes '
-                'front end vs the parameters the Lean alias-flow analysis of the regenerated skeletons predicts (c20.flow). non-trivial = distinct (clause, function, option, argument, container) keys')
+                'front end vs the parameters the Lean alias-flow analysis of the regenerated skeletons predicts (c20.flow); the whole memory block holding the mask (incl. the bytes between / around a '
+                'view\'s elements) after Spectrum.mask_corners / unmask_all on masks of every layout vs the Lean strided-array model executing the stores regenerated from the source (c20.maskwrite). non-trivial = distinct (clause, function, option, argument, container) keys')
     chk.unproved = ['hash-seed independence, memory-layout independence, object identity and aliasing are runtime facts: monitored (L3), not provable in a pure model',
                     'the effect table is a conservative syntactic analysis (tools/gen_Effects.py: path-sensitive forward data flow of alias roots through asarray/ravel/reshape/array(copy=False)/'
                     'masked-array constructors, nested functions and closure variables, function tables and make_extrap_func wrappers, interprocedural modified-parameter and returned-alias summaries '
@@ -1180,6 +1637,7 @@ def run(chk, ctx):
     k_memo(chk, ctx, rng)
     k_memo_tables(chk, ctx, common.Rng(ctx['seed'], 'C20-K'), tier)
     k_flow_effects(chk, ctx, common.Rng(ctx['seed'], 'C20-flow'))
+    k_mask_writes(chk, ctx, common.Rng(ctx['seed'], 'C20-maskwrite'), tier)
     memo_histories(chk, ctx, common.Rng(ctx['seed'], 'C20-memo'), tier)
     history(chk, ctx, rng, tier)
 
